@@ -78,6 +78,10 @@ pub fn run(ctx: &Ctx) {
     ctx.assume("the virtual clock hook (cfg rs_tftpd_verif) replaces Instant inside send_file only");
     let dirs = DirPool::new(ctx, "c01");
     explore(ctx, "random", ctx.tier.pick(200_000, 4_000_000), strategy, |c: &Scenario, o| dirs.with(|d| judge(d, c, o)));
+    // windows of more than 1 MiB / 32 MiB of data (large block sizes) and of more than 32768 blocks
+    let huge: Vec<Scenario> = super::c15::huge_window_cases().into_iter().filter(|s| s.role == Role::Sender).collect();
+    let nh = ctx.tier.pick(5, huge.len());
+    enumerate(ctx, "huge-windows", &huge[..nh], false, |c, o| dirs.with(|d| judge(d, c, o)));
     super::c0xw::run_wire(ctx, false);
 }
 
